@@ -34,6 +34,13 @@ Definition socks_wiring_ok : bool :=
      belongs to this call alone, and Scan neither writes to the Scanner nor hands out pointers into it *)
   socks_reply_fresh_local &&
   str_list_eqb socks_scan_writes_scanner [] && str_list_eqb socks_scan_scanner_field_addrs [] &&
+  (* SO_LINGER is given in SECONDS and is small: the final Close may block that long when the peer has vanished, which
+     the property's "scheduling slack" has to absorb *)
+  (1 <=? socks_linger_seconds) && (socks_linger_seconds <=? 2) &&
+  (* every Read / Write first arms a fresh deadline now + timeout, unconditionally: a zero or negative data timeout is
+     an already expired deadline, never "no deadline" *)
+  String.eqb socks_read_deadline "time.Now().Add(recv.timeout)" &&
+  String.eqb socks_write_deadline "time.Now().Add(recv.timeout)" &&
   (* the record's address and port are the request's *)
   String.eqb socks_result_ip_from "request.DstIP.String()" &&
   String.eqb socks_result_port_from "request.DstPort" &&
